@@ -406,6 +406,8 @@ def check_oracle(dirname, oracles):
         if cli_args.debug:
             print('We found compiler crash')
         for pid, proc_res in oracles.items():
+            if proc_res.failed:
+                output[pid] = proc_res.stats
             if not proc_res.failed:
                 shutil.copytree(
                     os.path.join(cli_args.test_directory, 'tmp', str(pid)),
